@@ -628,11 +628,24 @@ func (e *SEnv) evalCall(n *SCall) Val {
 		if !isLit || !idx.V.IsInt64() || int(idx.V.Int64()) >= len(rec.args) {
 			sfail("calledwith: bad argument index")
 		}
-		return specBool(e.specEq(rec.args[idx.V.Int64()], e.eval(n.Args[2])))
-	case "lastret": // lastret("T.F"): first result of the most recent call of T.F (false/0 if never called)
+		return specBool(And(rec.validTerm(), e.specEq(rec.args[idx.V.Int64()], e.eval(n.Args[2]))))
+	case "argsat": // argsat("T.F", i, "P_pred"): the most recent call of T.F passed an argument i satisfying P_pred (false if never called)
+		rec, ok := e.st.lastCall[n.Args[0].(*SStrL).V]
+		if !ok {
+			return specBool(False)
+		}
+		idx, isLit := n.Args[1].(*SIntL)
+		if !isLit || !idx.V.IsInt64() || int(idx.V.Int64()) >= len(rec.args) {
+			sfail("argsat: bad argument index")
+		}
+		return specBool(And(rec.validTerm(), uf(n.Args[2].(*SStrL).V, SBool, rec.args[idx.V.Int64()].C...)))
+	case "lastret", "lastretb": // first result of the most recent call of T.F; if never called: an arbitrary integer (lastret) / false (lastretb)
 		rec, ok := e.st.lastCall[n.Args[0].(*SStrL).V]
 		if !ok || len(rec.rets) == 0 {
-			return specBool(False)
+			if n.Fun == "lastretb" {
+				return specBool(False)
+			}
+			return specInt(Fresh("nevercalled", SInt))
 		}
 		return rec.rets[0]
 	case "refid": // identity (reference) of a pointer, channel, map or slice value
@@ -800,21 +813,7 @@ type ModTarget struct {
 func (e *SEnv) evalMod(x SExpr) ModTarget {
 	switch n := x.(type) {
 	case *SSel:
-		b := e.eval(n.X)
-		pt, ok := b.T.Underlying().(*types.Pointer)
-		if !ok {
-			sfail("modifies: %v is not a pointer", b.T)
-		}
-		st, ok := pt.Elem().Underlying().(*types.Struct)
-		if !ok {
-			sfail("modifies: not a struct")
-		}
-		for i := 0; i < st.NumFields(); i++ {
-			if st.Field(i).Name() == n.Name {
-				return ModTarget{Place: e.r.placeOf(b).withField(i)}
-			}
-		}
-		sfail("modifies: no field %s", n.Name)
+		return ModTarget{Place: e.placeOfExpr(n)}
 	case *SSlice:
 		b := e.eval(n.X)
 		if b.T == nil || !isSlice(b.T) {
